@@ -49,7 +49,9 @@ def _container(draw, thresholds, min_n=0, max_n=60, positive=False):
         cell = st.one_of(st.sampled_from(pool), st.integers(0, R - 1)) if pool else st.integers(0, R - 1)
     else:
         lo = 1e-3 if positive else -50.0
-        cell = st.one_of(st.sampled_from(pool), st.floats(lo, R * 1.2)) if pool else st.floats(lo, R * 1.2)
+        weird = st.sampled_from([float('nan'), float('inf'), float('-inf')])
+        cell = st.one_of(st.sampled_from(pool), st.floats(lo, R * 1.2), st.floats(lo, R * 1.2), weird) if pool \
+            else st.one_of(st.floats(lo, R * 1.2), st.floats(lo, R * 1.2), st.floats(lo, R * 1.2), weird)
     cells = [[draw(cell) for _ in range(D)] for _ in range(N)]
     names = list(draw(st.permutations([n for n in NAME_POOL if n != 'Time']))[:D])
     return dict(kind=kind, D=D, R=R, cells=cells, names=names)
@@ -157,10 +159,10 @@ def _mask_eq(obs, data, out_full, out_short, exp_mask, what):
         return
     base = np.asarray(data)
     g = out_full.gated_data
-    obs.claim('mask_eq', np.asarray(g).shape == base[mask].shape and bool(np.array_equal(np.asarray(g), base[mask])),
+    obs.claim('mask_eq', np.asarray(g).shape == base[mask].shape and bool(np.array_equal(np.asarray(g), base[mask], equal_nan=base.dtype.kind == 'f')),
               lambda: '%s: gated_data is not data[mask]' % what)
     obs.claim('short_form', type(out_short) is type(g) and np.asarray(out_short).shape == np.asarray(g).shape
-              and bool(np.array_equal(np.asarray(out_short), np.asarray(g))),
+              and bool(np.array_equal(np.asarray(out_short), np.asarray(g), equal_nan=base.dtype.kind == 'f')),
               lambda: '%s: short form differs from gated_data of the full form' % what)
     if hasattr(data, 'channels'):
         ref = fingerprint(data[mask])
@@ -253,6 +255,8 @@ def check(case, obs):
             if case['exact'] and q == 1.0:
                 boundary = True
                 obs.claim('boundary_kept', bool(mask[i]), lambda: 'point %r exactly on the ellipse not kept' % (row,))
+            elif q != q:
+                obs.claim('mask_is_predicate', not bool(mask[i]), lambda: 'event %r (not a number) was kept' % (row,))
             elif abs(q - 1.0) > 1e-9:
                 obs.claim('mask_is_predicate', bool(mask[i]) == (q <= 1.0),
                           lambda: 'event %r: q=%r but kept=%r (centre %r a=%r b=%r theta=%r log=%r)' % (
